@@ -71,7 +71,7 @@ pub fn run(ctx: &mut Ctx, _replay: Option<&[String]>) {
     let alists: Vec<(&str, String)> = vec![("valid", good.clone()), ("row-index-out-of-range", d2), ("truncated", good[..good.len() / 2].to_string()),
         ("empty", String::new()), ("not-a-number", good.replacen("12", "x", 1)), ("singular-tail", singular), ("unpadded", crate::c13::test_matrix().alist_no_padding())];
     let names: Vec<String> = vec!["Phif64".into(), "HLAminstari8".into(), "Minstarapproxi8JonesPartialHardLimitDeg1Clip".into(), "phif64".into(), "".into(), "HLPhif64 ".into(), "Aminstari9".into()];
-    let puncts = ["", "1,0", "1,1,1,0", "1,,0", "2", "1,0,", " 1,0", "1;0", "0", "0,0"];
+    let puncts = ["", "1,0", "1,1,1,0", "1,,0", "2", "1,0,", " 1,0", "1;0", "0", "0,0", "01,1,0", "1,1,00", "+1,1,0", "1,1,-0", "1,1,0 ", "１,1,0"];
     for (an, a) in &alists {
         for name in &names {
             for p in puncts {
